@@ -1290,6 +1290,27 @@ class FuncVerifier(object):
                 s.heap[v.loc] = AV(fresh(name + '_h', av.term.sort()), av.shape, av.elem)
             elif isinstance(v, View):
                 raise OutOfFragment('in-place mutation through a view inside a loop', n)
+        # fields of objects the body may change (attribute stores, method calls that modify their receiver / arguments)
+        def havoc_obj(loc_, only=None, depth=0):
+            o_ = s.heap.get(loc_)
+            if not isinstance(o_, Obj) or depth > 3:
+                return
+            newf = dict(o_.fields)
+            for f_, v_ in o_.fields.items():
+                if only is not None and f_ != only:
+                    continue
+                if isinstance(v_, Ref) and isinstance(s.heap.get(v_.loc), AV):
+                    av_ = s.heap[v_.loc]
+                    s.heap[v_.loc] = AV(fresh('%s_h' % f_, av_.term.sort()), av_.shape, av_.elem)      # same location and shape, unknown content
+                elif isinstance(v_, Ref) and isinstance(s.heap.get(v_.loc), Obj):
+                    havoc_obj(v_.loc, None, depth + 1)
+                elif is_z3(v_):
+                    newf[f_] = fresh(f_, v_.sort())
+            s.heap[loc_] = Obj(o_.cls, newf)
+        for (name, fld) in sorted(getattr(self, 'loop_field_effects', set()), key=lambda x_: (x_[0], x_[1] or '')):
+            v = st.env.get(name)
+            if isinstance(v, Ref) and isinstance(st.heap.get(v.loc), Obj):
+                havoc_obj(v.loc, fld)
         for name in assigned:
             if name == getattr(n, 'target', None) and False:
                 continue
@@ -2866,8 +2887,10 @@ def ast_load(t):
 
 
 def loop_effects(loop, fv):
-    """(names assigned, names whose array is mutated in place) in the loop body, syntactically"""
+    """(names assigned, names whose array is mutated in place) in the loop body, syntactically; fv.loop_field_effects is set to the
+    object fields the body may change: {(variable, field or None)} - None = every field of the object (and of its sub-objects)"""
     assigned, mutated = set(), set()
+    fields = set()
 
     def base_name(t):
         while isinstance(t, (ast.Subscript, ast.Attribute)):
@@ -2884,6 +2907,14 @@ def loop_effects(loop, fv):
             b = base_name(t)
             if b:
                 mutated.add(b)
+            # x.f = ... / x.f[...] = ...: the field f of the object x changes
+            t2 = t
+            while isinstance(t2, ast.Subscript):
+                t2 = t2.value
+            if isinstance(t2, ast.Attribute) and isinstance(t2.value, ast.Name):
+                fields.add((t2.value.id, t2.attr))
+            elif isinstance(t2, ast.Attribute) and b:
+                fields.add((b, None))
     for node in ast.walk(loop):
         if node is loop:
             continue
@@ -2904,8 +2935,33 @@ def loop_effects(loop, fv):
                         b = base_name(a)
                         if b:
                             mutated.add(b)
+            if isinstance(node.func, ast.Attribute) and not (isinstance(node.func.value, ast.Name) and node.func.value.id in ('numpy', 'np')):
+                # a method call  x.m(a, ...): what it may change is read off the contracts of every method named m (all classes, all
+                # variants): their `modifies` / `modifies_scalar` entries, mapped from the callee's parameters to the receiver and the
+                # arguments; a method without any contract is inlined and may change every field of the receiver and of its arguments
+                meth = node.func.attr
+                recv = base_name(node.func.value)
+                actual = [recv] + [base_name(a) for a in node.args]
+                cands = [c for k_, c in fv.lib.contracts.items() if '.' in k_.split('::')[1] and k_.split('::')[1].split('#')[0].split('.')[-1] == meth]
+                if meth in ('copy', 'all', 'any', 'astype', 'append', 'items', 'reshape', 'sum', 'dot', 'tolist') and not cands:
+                    continue
+                if not cands:
+                    for b in actual:
+                        if b:
+                            fields.add((b, None))
+                    continue
+                for c in cands:
+                    pn = [p for p, _ in c.params]
+                    for m_ in list(c.modifies) + list(c.modifies_scalar):
+                        base_, _, fld_ = m_.partition('.')
+                        if base_ in pn and pn.index(base_) < len(actual) and actual[pn.index(base_)]:
+                            if fld_:
+                                fields.add((actual[pn.index(base_)], fld_.split('.')[0]))
+                            else:
+                                mutated.add(actual[pn.index(base_)])
     if isinstance(loop, ast.For):
         tgt(loop.target)
+    fv.loop_field_effects = fields
     return assigned, mutated
 
 
